@@ -320,8 +320,11 @@ def _observe_conc(case):
     pending = [k for k, t in enumerate(tasks) if t.state != "done"]
     if case.get("drain") and pending:
         w.viol.append(["task-never-finished", {"tasks": pending, "locks": [l.held for l in w.locks]}])
-    for t in tasks:
-        t.coro.close()
+    for k, t in enumerate(tasks):
+        try:
+            t.coro.close()      # GeneratorExit at the task's suspension point: it must simply unwind
+        except BaseException as exc:  # noqa: B036
+            w.viol.append(["closing-an-abandoned-awaiter-raised", {"task": k, "exc": type(exc).__name__}])
     seen = set()
     viol = [v for v in w.viol if not (v[0] in seen or seen.add(v[0]))]
     return {"trace": trace, "viol": viol, "pending": pending,
